@@ -52,6 +52,7 @@ def ruleDoc (debug : Bool) (e : Err) : Doc :=
   | some (_, .err t) => .message (.atom t) none
   | some (_, .marsh j) => .doc j
   | some (_, .other j) => .doc j
+  | some (_, .nil) => .null                               -- no message: the JSON document `null`
 
 theorem effective_eq_ruleSource (e : Err) : effective e = ruleSource e := by
   cases e with
@@ -202,6 +203,7 @@ def docAtoms : Doc → List Atom
   | .message (.atom t) dbg => t :: dbg.getD []
   | .message (.statusText _) dbg => dbg.getD []
   | .doc j => [j]
+  | .null => []
 
 /-- the atoms the rule makes public: those of the message of the effective HTTP error -/
 def publicAtoms (e : Err) : List Atom :=
@@ -336,6 +338,13 @@ example : serve ⟨true, false, false, false, true, .wrote 201, .returned (.plai
 /-- the hypotheses of `C07_no_leak_plain` are met: 9 is a plain text, not public -/
 example : (9 : Nat) ∈ plainTexts (.httpI 400 (.str 7) (.httpI 404 (.str 8) (.plain 9))) ∧
     (9 : Nat) ∉ publicAtoms (.httpI 400 (.str 7) (.httpI 404 (.str 8) (.plain 9))) := by decide
+/-- an HTTPError without a message carrying a plain internal error: `null`, nothing of atom 9
+    (the input class of the seeded mutation `case nil: message = he.Error()`) -/
+example : serve ⟨false, false, true, false, false, .nothing, .returned (.httpI 502 .nil (.plain 9))⟩
+    = .response ⟨[502], [.null], true⟩ := by decide
+example : serve ⟨true, false, true, false, false, .nothing,
+      .returned (.httpI 400 (.str 1) (.httpI 409 .nil (.plain 9)))⟩
+    = .response ⟨[409], [.null], true⟩ := by decide
 /-- crashes: no Recover, or the abort sentinel -/
 example : serve ⟨false, false, false, false, false, .nothing, .panicked (.str 1)⟩ = .crashed := by decide
 example : serve ⟨false, false, true, false, false, .nothing, .panicked .abort⟩ = .crashed := by decide
